@@ -8,7 +8,7 @@ same (pre-state, call tree).
   end                                       -> st <n> (<owner> <key> <val>)*   the store under the implementation model
   specend                                   -> st ...                          the store under the specification
 Tree tokens: [ nodes ] ; P k v ; D k ; N e ; Q k [..] ; C c fl [..] ; I [..] ;
-  T [body] hasC [cat] hasF [fin] ; X ; A ; G tok to amt fl hasCb [cb] ; F v fl
+  T [body] hasC [cat] hasF [fin] ; X ; A ; G tok to amt fl hasCb [cb] ; F v fl ; B a fl ; U a fl ; Y d fl
 -/
 import NeoModel.Base.Proto
 import NeoModel.Model.Exec
@@ -65,6 +65,12 @@ mutual
         (if hasCb == "1" then cb else .skip), r)
     | "F" :: v :: fl :: r => do
       some (.native (.setFee (← v.toNat?)) (Flags.ofNat (← fl.toNat?)) .skip, r)
+    | "B" :: a :: fl :: r => do
+      some (.native (.block (← a.toNat?)) (Flags.ofNat (← fl.toNat?)) .skip, r)
+    | "U" :: a :: fl :: r => do
+      some (.native (.unblock (← a.toNat?)) (Flags.ofNat (← fl.toNat?)) .skip, r)
+    | "Y" :: d :: fl :: r => do
+      some (.native (.deploy (← d.toNat?)) (Flags.ofNat (← fl.toNat?)) .skip, r)
     | _ => none
 end
 
